@@ -1343,6 +1343,11 @@ func (c *BytecodeCompiler) compileNode(node ast.Node, valueIsIgnored bool) expre
 		c.compileAwaitExpressionNode(node)
 	case *ast.YieldExpressionNode:
 		c.compileYieldExpressionNode(node)
+		if !valueIsIgnored {
+			// YIELD consumes the yielded value, the expression itself evaluates to nil
+			c.emit(node.Location().EndPos.Line, bytecode.NIL)
+			return expressionCompiled
+		}
 		return expressionCompiledWithoutResult
 	case *ast.VariablePatternDeclarationNode:
 		c.compileVariablePatternDeclarationNode(node)
